@@ -267,23 +267,22 @@ Definition keywords : list (list N) :=
 
 Definition is_keyword (w : list N) : bool := existsb (bytes_eqb w) keywords.
 
+(* the 31 operators of `enum LogosToken`, as ASCII *)
+Definition operators : list (list N) :=
+  [ [95]; [40]; [41]; [123]; [125]; [91]; [93]; [63]; [59]; [58]; [58;58]; [44]; [46]; [124];
+    [45;62]; [61]; [33]; [42]; [47]; [37]; [43]; [45]; [60]; [60;61]; [62]; [62;61]; [61;61];
+    [33;61]; [38;38]; [124;124]; [46;46;46] ]%N.
+
+Fixpoint is_prefix (o s : list N) : bool :=
+  match o, s with
+  | [], _ => true
+  | x :: o', y :: s' => (x =? y)%N && is_prefix o' s'
+  | _ :: _, [] => false
+  end.
+
 (* operators: length of the longest operator of the table that is a prefix of s (0 = none) *)
 Definition op_len (s : list N) : nat :=
-  (match s with
-   | 58 :: 58 :: _ => 2%nat                     (* :: *)
-   | 46 :: 46 :: 46 :: _ => 3%nat               (* ... *)
-   | 45 :: 62 :: _ => 2%nat                     (* -> *)
-   | 60 :: 61 :: _ => 2%nat                     (* <= *)
-   | 62 :: 61 :: _ => 2%nat                     (* >= *)
-   | 61 :: 61 :: _ => 2%nat                     (* == *)
-   | 33 :: 61 :: _ => 2%nat                     (* != *)
-   | 38 :: 38 :: _ => 2%nat                     (* && *)
-   | 124 :: 124 :: _ => 2%nat                   (* || *)
-   | c :: _ =>
-     if existsb (N.eqb c) [95;40;41;123;125;91;93;63;59;58;44;46;124;61;33;42;47;37;43;45;60;62]
-     then 1%nat else 0%nat
-   | [] => 0%nat
-   end)%N.
+  fold_left (fun acc o => if is_prefix o s then Nat.max acc (length o) else acc) operators 0.
 
 (* Some (kind, n): the DFA accepts n >= 1 bytes; None: the DFA reports an error *)
 Definition lex_simple (s : list N) : option (kind * nat) :=
